@@ -22,6 +22,7 @@ def extra(ctx):
         raise SystemExit("[check] MACHINERY FAILURE: -race build failed: " + r.stdout + r.stderr)
     racebin = os.path.join(root, r.stdout.strip().splitlines()[-1] + "-race")
     env["GORACE"] = "halt_on_error=0 exitcode=66"
+    env["C20_CONC_FIRST"] = "1"   # first use of every routine in the -race process is concurrent (lazy initialisation races)
     env["C20_NOFRESH"] = "1"      # the fresh-process reference belongs to the plain run; a -race child per case would cost a second each
     try:
         p = subprocess.run([racebin, "gen", "C20", ctx["tier"], str(ctx["seed"])], env=env, capture_output=True, text=True,
